@@ -24,11 +24,11 @@ Definition segs (p : str) : list str :=
                      end) [[]] p.
 
 Definition seg_is_empty (s : str) : bool := match s with [] => true | _ => false end.
-Definition seg_is_dot (s : str) : bool := match s with [46] => true | _ => false end.
-Definition seg_is_dotdot (s : str) : bool := match s with [46; 46] => true | _ => false end.
+Definition seg_is_dot (s : str) : bool := str_eqb s [46].
+Definition seg_is_dotdot (s : str) : bool := str_eqb s [46; 46].
 Definition seg_is_name (s : str) : bool := negb (seg_is_empty s) && negb (seg_is_dot s).
 
-Definition rooted (p : str) : bool := match p with 47 :: _ => true | _ => false end.
+Definition rooted (p : str) : bool := match p with c :: _ => c =? 47 | [] => false end.
 
 (* walk from the directory `at_` (names, innermost first) along the segments *)
 Definition walk_step (at_ : list str) (s : str) : list str :=
